@@ -128,16 +128,4 @@ func Harness_C01_q_registrations_wrapped() {
 	verif.Reach("end")
 }
 
-func itoa(u uint64) string {
-	if u == 0 {
-		return "0"
-	}
-	var b []byte
-	for u > 0 {
-		b = append([]byte{byte('0' + u%10)}, b...)
-		u /= 10
-	}
-	return string(b)
-}
-
 var _ = hap.MethodGET
